@@ -376,6 +376,7 @@ async fn run_close(case: &Value) -> Value {
     let point = case["point"].as_str().unwrap_or("after-hello-idle").to_string();
     let manner = match case["manner"].as_str().unwrap_or("clean") {
         "abrupt" => CloseManner::Abrupt,
+        "fin-only" => CloseManner::FinOnly,
         "channel-close" => CloseManner::ChannelClose,
         _ => CloseManner::Clean,
     };
@@ -905,7 +906,7 @@ pub fn run_c07(cfg: &Cfg) -> i32 {
     let mut rep = Report::new(
         "C07",
         cfg,
-        "one evaluation = one real session over loopback TLS / SSH / a child process whose peer closes at a scripted point (before / inside the hello, idle after the hello, inside a reply, between request and reply, after the reply) in a scripted manner (clean, SSH channel close, abrupt) with 0, 1 or 3 requests outstanding; \
+        "one evaluation = one real session over loopback TLS / SSH / a child process whose peer closes at a scripted point (before / inside the hello, idle after the hello, inside a reply, between request and reply, after the reply) in a scripted manner (clean, SSH channel close, abrupt = RST, fin-only = TCP FIN without TLS close_notify / SSH goodbye) with 0, 1 or 3 requests outstanding; \
          distinct = distinct (transport, point, manner, outstanding, fraction); all are non-trivial",
     );
     rep.assumptions.push("spin = >= 1000 zero-length reads in the client's trace after the close, or >= 80 % CPU over the wait; hang = no completion within the watchdog with an idle CPU, confirmed by repeating the case twice (3/3), else inconclusive".into());
@@ -918,7 +919,8 @@ pub fn run_c07(cfg: &Cfg) -> i32 {
     let mut id = 0;
     for &tr in &trs {
         let manners: Vec<&str> = match tr {
-            Tr::Ssh => vec!["clean", "channel-close", "abrupt"],
+            Tr::Ssh => vec!["clean", "channel-close", "abrupt", "fin-only"],
+            Tr::Tls => vec!["clean", "abrupt", "fin-only"],
             _ => vec!["clean", "abrupt"],
         };
         for point in ["before-hello", "inside-hello", "after-hello-idle", "inside-reply", "between-request-and-reply", "after-reply"] {
@@ -1077,6 +1079,52 @@ pub fn run_c18b(cfg: &Cfg) -> i32 {
         }
         if rep.samples.len() < rep.max_samples {
             rep.sample(json!({"case": c, "client": r["client"], "cut_at": r["cut_at"], "reply_len": r["reply_len"]}));
+        }
+    }
+    rep.finish()
+}
+
+/// C05 over the real transports (the in-memory scheduler stage explores interleavings; this one
+/// exercises the same demultiplexing with the transports' own buffering underneath it).
+pub fn run_c05_real(cfg: &Cfg) -> i32 {
+    let mut rep = Report::new(
+        "C05",
+        cfg,
+        "one evaluation = one real session over loopback TLS / SSH / a child process with 1-3 batches of 2-6 pipelined requests, each batch answered in a random permutation whose byte stream is cut into random units \
+         (several replies, or parts of replies, per TLS record / channel-data packet / pipe write); reply futures awaited in issue order, reverse order or as concurrently spawned tasks on a 4-thread runtime; \
+         distinct = distinct (transport, batch size, rounds, await mode, script seed); non-trivial = all",
+    );
+    let n = cfg.count(600, 30_000);
+    let mut cases = Vec::new();
+    for i in 0..n {
+        let idx = cfg.case_index(i);
+        let mut r = cfg.prng("C05-real", idx);
+        let tr = [Tr::Tls, Tr::Ssh, Tr::Cli][(idx % 3) as usize];
+        let mode = ["in-order", "reverse", "spawned"][((idx / 3) % 3) as usize];
+        cases.push(json!({"kind": "demux", "id": idx + 1, "tr": tr.name(), "n": r.range(2, 6), "rounds": r.range(1, 3), "await": mode, "seed": cfg.seed}));
+    }
+    let results = run_cases(cases, 16, &[], Duration::from_secs(60));
+    for cr in &results {
+        let (c, r) = (&cr.case, &cr.result);
+        let key = format!("{}|{}|{}|{}|{}", c["tr"], c["n"], c["rounds"], c["await"], c["id"]);
+        rep.case(Some(key.as_bytes()));
+        rep.count(&format!("await:{}", c["await"].as_str().unwrap_or("?")));
+        rep.count(&format!("transport:{}", c["tr"].as_str().unwrap_or("?")));
+        match r["verdict"].as_str().unwrap_or("") {
+            "held" => {
+                rep.count("held");
+                rep.count_n("replies_matched_to_their_request", r["replies_checked"].as_u64().unwrap_or(0));
+            }
+            "violated" => {
+                let symptoms: Vec<String> = r["symptoms"].as_array().map(|a| a.iter().filter_map(|s| s.as_str().map(ToString::to_string)).collect()).unwrap_or_default();
+                for sy in &symptoms {
+                    rep.violation(&format!("real:{}:{sy}", c["tr"].as_str().unwrap_or("?")), &format!("{symptoms:?}"), json!({"case": c, "result": r}));
+                }
+            }
+            other => rep.inconclusive(&key, &format!("{other}: {}", r["why"].as_str().unwrap_or(""))),
+        }
+        if rep.samples.len() < rep.max_samples {
+            rep.sample(json!({"case": c, "script": r["script"], "client": r["client"]}));
         }
     }
     rep.finish()
